@@ -16,6 +16,7 @@ CFG = dict(
         "replay": ("N * replay_case", "check_replay1"),
         "merge": ("N * merge_case", "check_merge1"),
         "dup": ("N * dup_case", "check_dup1"),
+        "commitroot": ("N * croot_case", "check_croot1"),
         "layout": ("layout_case", "check_layout"),
     },
     known_classes={0: "block-signatures-field", 1: "genesis-unlinked", 2: "merkle-duplicate-tail",
